@@ -37,11 +37,14 @@ def re_match_with_span(attr, value):
     if attr.pattern is None:
         return True
 
+    # the pattern has to match the whole value. match() stops at the first
+    # alternative that matches at the start ('a|ab' finds 'a' in 'ab'), so
+    # looking at the span of what it found is not enough.
+    fullmatch = getattr(attr._pattern_re, 'fullmatch', None)
+    if fullmatch is not None:
+        return fullmatch(value) is not None
+
     m = attr._pattern_re.match(value)
-    # if m:
-    #     print(m, m.span(), len(value))
-    # else:
-    #     print(m)
     return (m is not None) and (m.span() == (0, len(value)))
 
 
